@@ -174,10 +174,25 @@ func (sd *SchemaDesc) add(f *FieldDesc) {
 func (sd *SchemaDesc) ModalFields() []string {
 	var out []string
 	for _, t := range sd.Types {
+		if t.Name == "Mutation" {
+			continue // see MutationFields
+		}
 		for _, f := range t.Fields {
 			if !f.StructField {
 				out = append(out, f.Key())
 			}
+		}
+	}
+	sort.Strings(out)
+	return out
+}
+
+// MutationFields lists the "Mutation.field" keys.
+func (sd *SchemaDesc) MutationFields() []string {
+	var out []string
+	if t := sd.Types["Mutation"]; t != nil {
+		for _, f := range t.Fields {
+			out = append(out, f.Key())
 		}
 	}
 	sort.Strings(out)
@@ -274,7 +289,8 @@ func objField[S any, A any, R any](sd *SchemaDesc, owner, name string, args []Ar
 			// batch function's non-pointer, non-list result is nullable unless
 			// marked NonNullable.
 			var z R
-			if k := reflect.TypeOf(&z).Elem().Kind(); k != reflect.Ptr && k != reflect.Slice {
+			rt := reflect.TypeOf(&z).Elem()
+			if k := rt.Kind(); (k != reflect.Ptr && k != reflect.Slice) || rt == reflect.TypeOf([]byte(nil)) {
 				obj.BatchFieldFuncWithFallback(name, manyF, oneF, useBatch, schemabuilder.NonNullable)
 			} else {
 				obj.BatchFieldFuncWithFallback(name, manyF, oneF, useBatch)
@@ -288,7 +304,12 @@ func objField[S any, A any, R any](sd *SchemaDesc, owner, name string, args []Ar
 
 // rootField declares a field on Query.
 func rootField[A any, R any](sd *SchemaDesc, name string, args []ArgDesc, ret TypeRef, fn func(*World, A) R) {
-	f := &FieldDesc{Owner: "Query", Name: name, Args: args, Ret: ret, Root: true}
+	rootFieldOn(sd, "Query", name, args, ret, fn)
+}
+
+// rootFieldOn declares a field of the Query or Mutation root.
+func rootFieldOn[A any, R any](sd *SchemaDesc, owner, name string, args []ArgDesc, ret TypeRef, fn func(*World, A) R) {
+	f := &FieldDesc{Owner: owner, Name: name, Args: args, Ret: ret, Root: true}
 	f.SrcID = func(interface{}) int64 { return 0 }
 	f.Call = func(w *World, src interface{}, raw map[string]interface{}) (interface{}, error) {
 		var a A
@@ -300,7 +321,7 @@ func rootField[A any, R any](sd *SchemaDesc, name string, args []ArgDesc, ret Ty
 	f.register = func(obj *schemabuilder.Object, mode Mode, env *Env) {
 		one := func(ctx context.Context, a A) (R, error) {
 			env.pause()
-			if err := env.fail(ctx, "Query", 0, name, false); err != nil {
+			if err := env.fail(ctx, owner, 0, name, false); err != nil {
 				var z R
 				return z, err
 			}
@@ -375,6 +396,7 @@ func Zoo() *SchemaDesc {
 	objField(sd, "Node", "thing", nil, Uni("Thing"), nid, NodeThing)
 	objField(sd, "Node", "things", nil, ListOf(Uni("Thing")), nid, NodeThings)
 	objField(sd, "Node", "solo", nil, Uni("Solo"), nid, NodeSolo)
+	objField(sd, "Node", "blob", nil, Scalar("String"), nid, NodeBlob)
 	objField(sd, "Node", "item", nil, Obj("Item"), nid, NodeItem)
 	objField(sd, "Node", "bags", nil, ListOf(Obj("Bag")), nid, NodeBags)
 	sd.Types["Node"].KeyField = "id"
@@ -502,6 +524,11 @@ func Zoo() *SchemaDesc {
 	rootField(sd, "item", argA, Obj("Item"), RootItem)
 	rootField(sd, "color", nil, Enum("Color"), RootColor)
 	rootField(sd, "count", nil, Scalar("Int"), RootCount)
+	// mutations (pure: what matters is how the operation kind is routed); only
+	// registered under Config.Mutations
+	rootFieldOn(sd, "Mutation", "touch", argID, Obj("Node"), RootNode)
+	rootFieldOn(sd, "Mutation", "pick", argID, Obj("Leaf"), RootLeaf)
+	rootFieldOn(sd, "Mutation", "poke", argID, Uni("Thing"), RootThing)
 	return sd
 }
 
@@ -516,6 +543,8 @@ type Config struct {
 	// NodeKeys selects the federated key set this service declares for Node:
 	// "id" = {id}, anything else = {id, grp}.
 	NodeKeys string
+	// Mutations registers the Mutation root (fields subject to Include).
+	Mutations bool
 }
 
 // Build registers the zoo with schemabuilder under cfg.
@@ -584,6 +613,10 @@ func RegisterInto(s *schemabuilder.Schema, sd *SchemaDesc, cfg Config, env *Env)
 		s.Object("Pt", Pt{})
 	}
 	types := []string{"Query", "Node", "Leaf", "Item"}
+	if cfg.Mutations {
+		objs["Mutation"] = s.Mutation()
+		types = append(types, "Mutation")
+	}
 	if cfg.Service == "" {
 		// Bag (a non-comparable value object) is not federated
 		objs["Bag"] = s.Object("Bag", Bag{})
